@@ -109,6 +109,7 @@ type FuncSpec struct {
 	File      string
 	Line      int
 	NoHavoc   bool
+	ZeroesNewFields bool // a Reset-like method: fields the contract files do not know must end as their zero value
 	NilReceiver bool // the method is meant to be callable on a nil receiver: no non-nil assumption
 	Reveal    []string
 	RelInline []string // callees executed inline in relational (two-run) mode
@@ -386,6 +387,8 @@ func (sp *Specs) parseFile(repo, file string) error {
 			for _, n := range splitList(rest) {
 				curF.RelInline = append(curF.RelInline, qualify(pkg, n))
 			}
+		case "zeroes_unclassified_fields":
+			curF.ZeroesNewFields = true
 		case "nilreceiver":
 			curF.NilReceiver = true
 		case "implements":
